@@ -99,7 +99,7 @@ def run(scenario, params, tape, detail=False):
             if answer["mode"] == "never":
                 return
         req.nrsp += 1
-        ncp.emit(payload, 0.0, "rsp", req.seq)
+        ncp.emit(payload, answer.get("delay", 0.0) if req.name == "setMulticastTableEntry" else 0.0, "rsp", req.seq)
 
     ncp.deliver = deliver
 
@@ -233,6 +233,44 @@ def run(scenario, params, tape, detail=False):
     def key_leak(vs):
         return any(v[1] == "leak-on-timeout" for v in vs)
 
+    async def overlap_same_unsubscribe(ez, size, label):
+        """Two overlapping unsubscribe(G) calls (both table writes outstanding), the first confirmed, then subscribe(H) claims the freed index before the
+        second confirmation arrives. What the second unsubscribe returns or raises is not constrained (overlapping calls for ONE group are outside the
+        property's quantifier, and bellows raises KeyError there); the table invariants afterwards are."""
+        ncp.multicast_size = size
+        ncp.config[0x06] = size
+        ncp.multicast = {}
+        answer["mode"], answer["applied"], answer["delay"] = "ok", False, 0.0
+        mc = bellows.multicast.Multicast(ez)
+        await mc._initialize()
+        nseq[0] += 1
+        probe("op.overlapping_same_group")
+        for g in range(size):
+            await mc.subscribe(GROUPS[g])
+        answer["delay"] = 0.1
+        u1 = loop.create_task(mc.unsubscribe(GROUPS[0]))
+        u2 = loop.create_task(mc.unsubscribe(GROUPS[0]))
+        await asyncio.sleep(0.15)  # the first write is confirmed, the second is outstanding
+        s1 = loop.create_task(mc.subscribe(GROUPS[4]))
+        await asyncio.gather(u1, u2, s1, return_exceptions=True)
+        answer["delay"] = 0.0
+        where = f"{label} overlapping unsubscribe x2 of one group, then a subscribe between the two confirmations: "
+        used = [v[1] for v in mc._multicast.values()]
+        free = set(mc._available)
+        if len(set(used)) != len(used):
+            viol.append(("C15.partition", "index-used-twice", where + f"indices in use {used}"))
+        if set(used) & free:
+            viol.append(("C15.partition", "free-and-used", where + f"indices {sorted(set(used) & free)} are both free and in use"))
+        # further subscriptions must not overwrite a slot the host still reports in use
+        before = {int(k): v[1] for k, v in mc._multicast.items()}
+        for j in range(size + 1):
+            await mc.subscribe(0x7100 + j)
+        for k, idx in before.items():
+            if ncp.multicast.get(idx, (0, 0)) != (k, 1):
+                viol.append(("C15.mirror", "overwritten", where + f"group {k:#x} (index {idx}) is still reported by the host but the NCP now has {ncp.multicast.get(idx)} there"))
+                break
+        sigs.add(hashlib.blake2b(repr((V, "overlap_same", size)).encode(), digest_size=8).digest())
+
     async def overlap_sequence(ez, size, rounds, label):
         """Operations on DIFFERENT groups whose table writes overlap (two callers, e.g. two group-membership changes at once): the
         invariants are checked whenever no call is in progress. (Two overlapping subscribes of the SAME group are not generated: that
@@ -283,6 +321,7 @@ def run(scenario, params, tape, detail=False):
                                [[("sub", 0), ("sub", 1)], [("unsub", 0), ("sub", 2)], [("sub", 3), ("unsub", 1)]],
                                [[("sub", 0)], [("unsub", 0), ("sub", 1)], [("sub", 0), ("sub", 2), ("sub", 3)]]):
                     await overlap_sequence(ez, size, rounds, f"v{V} size={size}")
+                await overlap_same_unsubscribe(ez, size, f"v{V} size={size}")
         elif scenario == "overlap_random":
             size = 1 + tape.draw(4, "size")
             rounds = []
